@@ -1414,7 +1414,7 @@ def shared_state_rule(index, rep, rid, modules):
                 bad = None
                 for k in [x for x in index.classes.values() if x.qualname in family]:
                     for meth in k.methods.values():
-                        refs = ("self." + attr, "cls." + attr) + tuple(x.name + "." + attr for x in index.classes.values() if x.qualname in family)
+                        refs = ("self." + attr, "cls." + attr, "self.__class__." + attr, "type(self)." + attr) + tuple(x.name + "." + attr for x in index.classes.values() if x.qualname in family)
                         for w in writes_in(meth.node):
                             if w.attr == attr and w.base is not None and norm(w.base) + "." + attr in refs and w.kind in ("mutcall", "substore", "subdel", "augstore"):
                                 bad = bad or (meth, w.stmt, "mutates it in place")
